@@ -8,10 +8,16 @@ def fuel : Nat := 40
 
 def bytesOfStr (s : String) : Bytes := s.toUTF8.toList
 
+/-- printable ASCII is shown as is, anything else as hex:<bytes> (same rule as the harness) -/
 def strOfBytes (b : Bytes) : String :=
-  match String.fromUTF8? (ByteArray.mk b.toArray) with
-  | some s => s
-  | none => "hex:" ++ hexTok b
+  if b.all (fun c => 0x21 ≤ c && c ≤ 0x7e) then
+    match String.fromUTF8? (ByteArray.mk b.toArray) with
+    | some s => s
+    | none => "hex:" ++ hexTok b
+  else "hex:" ++ hexTok b
+
+def unEsc (s : String) : Bytes :=
+  if s.startsWith "hex:" then (bytesOfHex (s.drop 4).toString).getD [] else bytesOfStr s
 
 /-- strip the sandbox-root placeholder '@' -/
 def unAt (b : Bytes) : Bytes := match b with | 0x40 :: r => r | _ => b
@@ -142,7 +148,7 @@ came back; directory listed = the directory that has exactly those entries … o
 paths the harness observed) must be allowed by the configured patterns. -/
 
 def physAllowed (c : Cfg) (q : String) : Bool :=
-  validatePath id c (bytesOfStr q) == .ok
+  validatePath id c (unEsc q) == .ok
 
 def pathsOf (field : String) : List String :=
   match field.splitOn "=" with
